@@ -32,7 +32,7 @@ TEMPLATES = {
 LEVELS = {
     'quick': [
         {'name': 'L1-N5-M2-K3', 'N': 5, 'M': 2, 'K': 3, 'guards': 0, 'namings': ['rev'], 'budget_s': 100},
-        {'name': 'L2-T1-M2-K3', 'templates': ['T1s', 'T1d'], 'M': 2, 'K': 3, 'guards': 0, 'namings': ['rev', 'mix'], 'budget_s': 60},
+        {'name': 'L2-T1T4-M2-K3', 'templates': ['T1s', 'T1d', 'T4'], 'M': 2, 'K': 3, 'guards': 0, 'namings': ['rev', 'mix'], 'budget_s': 90},
         {'name': 'L3-T3-M2-K2', 'templates': ['T3s'], 'M': 2, 'K': 2, 'guards': 1, 'budget_s': 60},
     ],
     'thorough': [
